@@ -8,7 +8,7 @@ from . import e2e, e2etags, geomgen as G, topo2
 
 ID = "C10"
 LEVEL = "proof"
-LEAN_MODULES = []   # ["DracoProps.C10"] once merged
+LEAN_MODULES = ["DracoProps.C10"]
 RULE = ("(a) generated point clouds and meshes with quantized float positions / generic / tex-coord / colour attributes, "
         "octahedral normals and integer attributes, encoded with every method (sequential, kd-tree, Edgebreaker standard / "
         "valence, speeds 0..10, Encoder and ExpertEncoder API) and decoded with SetSkipAttributeTransform for EVERY "
@@ -16,7 +16,7 @@ RULE = ("(a) generated point clouds and meshes with quantized float positions / 
         "and the decode with all transforms skipped; (b) every .drc file of the repository's testdata (bitstreams 0.9 .. "
         "2.3, legacy attribute decoders) under every subset of its attribute types; (c) sequential streams whose "
         "octahedral-bits byte is overwritten (ordinary decode rejects, skipped decode accepts: the accept sets differ "
-        "exactly as the theorem skip_equiv says). Oracle: the executable Lean specification Spec.skipCheck (described "
+        "exactly as the theorem skip_equiv says); (d) the byte-level witness streams of the theorems. Oracle: the executable Lean specification Spec.skipCheck (described "
         "transform applied to the exposed integers == ordinary decode bit for bit, same unique ids, maps, connectivity) "
         "on the implementation's outputs, plus: skipped decode succeeds whenever the ordinary one does, attributes of "
         "types outside the skip set are token-identical to the ordinary decode, attributes of types inside the skip set "
@@ -291,7 +291,19 @@ def generate(rng, tier):
         toks = ["method=0", f"q{G.NORMAL}={q}"]
         for S in ({1}, {0}):
             cases.append(poke_case(g, toks, f"-1:{bits_byte}", S, ("given:overwritten-octahedral-bits", f"octahedral-bits-byte:{bits_byte}")))
+    # ---- (d) the byte-level witnesses of DracoProps.C10 (bs1: accepted; bs2 / bs3: the skipped decode accepts, the
+    #          ordinary one rejects) replayed on the real decoder: both sides must agree on all three decodes
+    for name, bs in WITNESSES.items():
+        for S in ({0}, {1}, {0, 1, 2, 3, 4}):
+            cases.append(stream_case(bytes(bs).hex(), S, "theorem witness " + name, ("given:theorem-witness", "given:" + name)))
     return cases
+
+
+WITNESSES = {
+    "bs1": [68, 82, 65, 67, 79, 2, 3, 0, 0, 0, 0, 1, 0, 0, 0, 1, 1, 0, 2, 1, 0, 0, 1, 254, 0, 1, 6],
+    "bs2": [68, 82, 65, 67, 79, 2, 3, 0, 0, 0, 0, 1, 0, 0, 0, 1, 1, 0, 9, 1, 0, 0, 1, 254, 0, 1, 6],
+    "bs3": [68, 82, 65, 67, 79, 2, 3, 0, 0, 0, 0, 1, 0, 0, 0, 1, 1, 1, 9, 3, 0, 0, 3, 254, 0, 1, 0, 0, 1],
+}
 
 
 def replay_cases(lines):
